@@ -52,4 +52,5 @@ def main(tier):
     chk.run("R-PARAMVIS", B.paramvis, cx.repo, cx.templates, floor=1)
     chk.run("R-RESUBREPL", B.resubrepl, cx.repo, floor=3)
     chk.run("R-ELEMSTORAGE", B.elemstorage, cx.repo, cx.cpp, floor=2)
+    chk.run("R-ENUMUNIQUE", B.enumunique, cx.repo, floor=2)
     return chk.finish()
